@@ -29,6 +29,7 @@ type c13Case struct {
 	Siblings  int    `json:"siblings"`  // gated healthy calls in flight on the same client while the panic happens
 	Stream    int    `json:"stream"`    // length of a concurrently running stream (0 = none; ws only)
 	Repeat    int    `json:"repeat"`    // panicking calls in a row
+	Parallel  int    `json:"parallel"`  // additional panicking unary calls fired at the same instant (several connections, both transports)
 }
 
 type c13Env struct {
@@ -139,6 +140,57 @@ func (e *c13Env) run(c c13Case) *Violation {
 		stream = ch
 	}
 
+	if c.Parallel > 0 {
+		// several handlers panic at (nearly) the same instant, on this and on further connections
+		var extra []jsonrpc.ClientCloser
+		var burst []*asyncRes
+		var start sync.WaitGroup
+		start.Add(1)
+		for i := 0; i < c.Parallel; i++ {
+			tok := fmt.Sprintf("%s-par%d", pfx, i)
+			call := cl.Call
+			if i%2 == 1 {
+				var c2 struct {
+					Call func(ctx context.Context, tok string, plan Plan) (Result, error)
+				}
+				addr := "ws://" + h.addr
+				if i%4 == 3 {
+					addr = "http://" + h.addr
+				}
+				if cc, err := jsonrpc.NewMergeClient(context.Background(), addr, "Tok", []interface{}{&c2}, nil); err == nil {
+					extra = append(extra, cc)
+					call = c2.Call
+				}
+			}
+			burst = append(burst, goCall(func() (Result, error) {
+				start.Wait()
+				return call(context.Background(), tok, Plan{Panic: c.Payload})
+			}))
+		}
+		time.Sleep(2 * time.Millisecond)
+		start.Done()
+		for _, a := range burst {
+			if !a.wait(5 * time.Second) {
+				if !h.Alive() {
+					return died()
+				}
+				return violf("panicking-call-hangs", "one of %d simultaneously panicking calls did not return within 5s", c.Parallel)
+			}
+			if a.err == nil || !strings.Contains(strings.ToLower(a.err.Error()), "panic") {
+				if !h.Alive() {
+					return died()
+				}
+				return violf("panic-not-mentioned", "one of %d simultaneously panicking calls returned %v", c.Parallel, a.err)
+			}
+		}
+		for _, cc := range extra {
+			cc := cc
+			bounded(2*time.Second, func() { cc() })
+		}
+		if !h.Alive() || h.DiedWithin(10*time.Millisecond) {
+			return died()
+		}
+	}
 	for r := 0; r < c.Repeat; r++ {
 		tok := fmt.Sprintf("%s-boom%d", pfx, r)
 		plan := Plan{Panic: c.Payload}
@@ -243,7 +295,7 @@ func (e *c13Env) run(c c13Case) *Violation {
 	return nil
 }
 
-var c13Payloads = []string{"string", "error", "nilmap", "nilptr", "custom", "index", "nilstringer", "nilerror"}
+var c13Payloads = []string{"string", "error", "nilmap", "nilptr", "custom", "index", "nilstringer", "nilerror", "funcstruct", "chan", "nan"}
 
 const c13Rule = "panic payload {string, error, nil-map write, nil dereference, custom struct, index out of range} x call kind {unary, no-context, notification, channel-returning, reverse (panic in the client-side handler)} x 0-4 healthy gated sibling calls and an optional paced stream in progress on the same connection x 1-3 panics in a row x {ws, http}; server hosted in a child process. Complete grid of payload x kind x transport plus rapid-generated mixes. Non-trivial = at least one sibling or stream in progress, or a non-string payload; distinct by descriptor hash"
 
@@ -253,11 +305,14 @@ func TestC13(t *testing.T) {
 	rec := NewRec("C13", c13Rule)
 	defer rec.Finish(t)
 	rec.EnableJournal()
-	rec.RequireClass("kind_cancel_then_panic", "payload_nilstringer", "payload_nilerror", "kind_unary", "kind_notify", "kind_sub", "kind_reverse", "tr_http", "tr_ws", "with_siblings", "with_stream")
+	rec.RequireClass("simultaneous_panics", "payload_funcstruct", "payload_nan", "kind_cancel_then_panic", "payload_nilstringer", "payload_nilerror", "kind_unary", "kind_notify", "kind_sub", "kind_reverse", "tr_http", "tr_ws", "with_siblings", "with_stream")
 	run := func(ft failer, c c13Case) {
 		cl := []string{"kind_" + c.Kind, "tr_" + c.Transport, "payload_" + c.Payload}
 		if c.Siblings > 0 {
 			cl = append(cl, "with_siblings")
+		}
+		if c.Parallel > 0 {
+			cl = append(cl, "simultaneous_panics")
 		}
 		if c.Stream > 0 && c.Transport == "ws" {
 			cl = append(cl, "with_stream")
@@ -274,14 +329,14 @@ func TestC13(t *testing.T) {
 					if (k == "reverse" || k == "cancel_then_panic") && i > 0 {
 						continue
 					}
-					run(t, c13Case{Transport: tr, Kind: k, Payload: p, Siblings: i % 3, Stream: (i % 2) * 5, Repeat: 1})
+					run(t, c13Case{Transport: tr, Kind: k, Payload: p, Siblings: i % 3, Stream: (i % 2) * 5, Repeat: 1, Parallel: (i % 3) * 8})
 				}
 			}
 		}
 	})
 	rec.Rapid(t, "rapid", func(rt *rapid.T) {
 		c := c13Case{Transport: rapid.SampledFrom([]string{"ws", "ws", "http"}).Draw(rt, "transport"), Payload: rapid.SampledFrom(c13Payloads).Draw(rt, "payload"),
-			Siblings: rapid.IntRange(0, 4).Draw(rt, "siblings"), Stream: rapid.SampledFrom([]int{0, 0, 3, 40}).Draw(rt, "stream"), Repeat: rapid.IntRange(1, 3).Draw(rt, "repeat")}
+			Siblings: rapid.IntRange(0, 4).Draw(rt, "siblings"), Stream: rapid.SampledFrom([]int{0, 0, 3, 40}).Draw(rt, "stream"), Repeat: rapid.IntRange(1, 3).Draw(rt, "repeat"), Parallel: rapid.SampledFrom([]int{0, 0, 4, 12}).Draw(rt, "parallel")}
 		kinds := []string{"unary", "noctx", "notify"}
 		if c.Transport == "ws" {
 			kinds = append(kinds, "sub", "reverse", "cancel_then_panic")
